@@ -147,7 +147,7 @@ impl Check for C13 {
         let mut jobs: Vec<Job> = Vec::new();
         let input_desc;
         let s = |x: &str| x.to_string();
-        match idx % 7 {
+        match idx % 8 {
             0 => {
                 // accepted generated ledger: all report commands
                 let Some((ledger, _)) = gen_report_ledger(&mut rng, 3, 12) else {
@@ -225,6 +225,31 @@ impl Check for C13 {
                 jobs.push(Job { family: "price-scenario", argv: e });
                 input_desc = format!("=== ledger\n{}=== price db\n{}", ledger, sc.price_db);
             }
+            6 => {
+                // expressions in which several commodities cancel: which commodity (if any) the zero
+                // keeps must not depend on the run
+                let comms = ["USD", "EUR", "JPY", "CHF"];
+                let k = 2 + rng.usize(3);
+                let mut e = String::new();
+                for (i, c) in comms.iter().take(k).enumerate() {
+                    let v = 1 + rng.usize(20);
+                    if i > 0 {
+                        e.push_str(" + ");
+                    }
+                    e.push_str(&format!("{} {} - {} {}", v, c, v, c));
+                }
+                let text = match rng.below(3) {
+                    0 => format!("2024/01/01 hold\n    Assets:Pot    5 USD\n    Equity:Opening\n\n2024/01/02 cancel\n    Assets:Pot    ({})\n    Equity:Opening\n", e),
+                    1 => format!("2024/01/01 hold\n    Assets:Pot    5 USD\n    Equity:Opening\n\n2024/01/02 cancel\n    Assets:Pot    1 USD = ({})\n    Equity:Opening\n", e),
+                    _ => format!("2024/01/01 hold\n    Assets:Pot    5 USD\n    Equity:Opening\n\n2024/01/02 cancel\n    Assets:Pot    = ({})\n    Equity:Opening\n", e),
+                };
+                let _ = std::fs::write(&lp, &text);
+                for cmd in ["balance", "register"] {
+                    jobs.push(Job { family: "cancelling-commodities-expression", argv: vec![s(cmd), s("--now"), s("2030-01-01"), lps.clone()] });
+                }
+                jobs.push(Job { family: "cancelling-commodities-expression", argv: vec![s("primitive"), s("eval"), s("--date"), s("2024-02-01"), s("-f"), lps.clone(), s("--"), format!("({})", e)] });
+                input_desc = text;
+            }
             5 => {
                 // include tree with globs: flatten and balance
                 let Some(ledger) = crate::checks::c11::gen_ordered_ledger(&mut rng, 2, 8) else {
@@ -278,7 +303,7 @@ impl Check for C13 {
          ledgers (balance, register, accounts, format); accounts holding 3-6 commodities and multi-commodity inferred postings (balance, register, register of one \
          account); failing assertions / zero assertions / zero assignments on multi-commodity accounts and residuals in four commodities (error text); price graphs \
          with 2-4 equal-distance chains of different rate and holdings with several unconvertible commodities (balance -X, --historical, primitive eval -X); random \
-         price scenarios with holdings in every commodity; include trees with globs (primitive flatten, balance); imports whose rewrite rules have several capturing \
+         price scenarios with holdings in every commodity; posting amounts / assertions / assignments written as expressions in which 2-4 commodities cancel; include trees with globs (primitive flatten, balance); imports whose rewrite rules have several capturing \
          matchers (CSV and ISO Camt053). With k >= 3 commodities in one printed amount a hash-ordered print differs between two runs with probability >= 5/6, so 6 \
          runs miss it with probability < 1e-3 per input. Distinct by input text."
             .to_string()
